@@ -82,6 +82,17 @@ def check_handler(cx, fn, T, shape, rep, facts):
                 ok = isinstance(tt, tuple) and tt[0] == 'proj' and tt[1] == 0 and tt[2][0] == 'elem'
                 if not ok:
                     S.bad('BND', label + '-into-target', 'the Into bound does not name the target being visited', line=ev.line)
+        # the where-clause of the impl comes from this computation on every path on which the impl is emitted: a bound computed only
+        # under a condition (e.g. "no type-level expression") leaves the impl without the explicit / automatic predicates otherwise
+        own = [a for a in S.facts.atoms(ev.ctx, fw) if a[0] not in ('cfg', 'data', 'loop', 'via', 'rawloop', 'call')]
+        if own:
+            for isite, iimpl in S.impls():
+                ia = S.atoms(isite) + S.facts.atoms(isite.tmpl.ctx, fw)
+                missing = [a for a in own if a not in ia]
+                if missing and iimpl.get('trait') is not None:
+                    S.bad('BND', label + '-conditional', 'the bound is computed only under %s, but `impl %s` is emitted also when that does not hold (its where-clause then lacks the predicates)' % (
+                        [atom_s(a)[:70] for a in missing], iimpl['trait']['path']['s']), isite)
+                    break
         # supertraits
         check_supers(S, T, args[3], ev, label)
         # types
